@@ -61,6 +61,41 @@ def regex_alternatives(pattern):
     return out
 
 
+def unbounded_alternatives(pattern):
+    """Top-level alternatives of the pattern that contain an unbounded repetition: the source texts (approximate) of such branches."""
+    try:
+        p = sre_parse.parse(pattern)
+    except Exception as e:
+        raise AnalysisError('cannot parse regex %r: %s' % (pattern, e))
+    out = []
+
+    def unbounded(seq):
+        for op, av in seq:
+            if op in (sre_c.MAX_REPEAT, sre_c.MIN_REPEAT) or str(op) == 'POSSESSIVE_REPEAT':
+                if av[1] == sre_c.MAXREPEAT or unbounded(av[2]):
+                    return True
+            elif op == sre_c.SUBPATTERN:
+                if unbounded(av[3]):
+                    return True
+            elif op == sre_c.BRANCH:
+                if any(unbounded(a_) for a_ in av[1]):
+                    return True
+        return False
+
+    def top(seq):
+        for op, av in seq:
+            if op == sre_c.SUBPATTERN:
+                top(av[3])
+            elif op == sre_c.BRANCH:
+                for i_, alt in enumerate(av[1]):
+                    if unbounded(alt):
+                        out.append(i_)
+            elif op in (sre_c.MAX_REPEAT, sre_c.MIN_REPEAT) and av[1] == sre_c.MAXREPEAT:
+                out.append(-1)
+    top(p)
+    return out
+
+
 def kept_by_sub(pattern):
     """For re.sub(pattern, ' ', region): which characters survive?  Returns ('only', set) when the
     pattern replaces every character except a finite literal set, ('category', text) when what is
@@ -184,6 +219,17 @@ def check(ctx):
             ctx.violation('C14.R1', F, scanners[0][0], fq,
                           'the comment scanner looks for %s but never for the string delimiter `"`: text inside a character-string literal such as "a--b" '
                           'is treated as a comment and blanked (the literal is corrupted or the module rejected)' % sorted(set(lits)), stmt='scanner ignores string literals')
+        # the scanner runs over the raw text without knowing whether it is inside a comment or a literal: it can only find *markers*, and the loop keeps the state.
+        # An alternative with an unbounded repetition ("..." matched as a whole) swallows the markers inside it whatever the state is -- a quotation mark in a
+        # comment then hides the end of the comment.
+        for c_, pat_, _ls in scanners:
+            ub = unbounded_alternatives(pat_)
+            ctx.instance('C14.R1', '%s scanner %r: every alternative is a bounded marker' % (fq, pat_[:60]), 'ok' if not ub else 'VIOLATION', node=c_, file=F)
+            if ub:
+                ctx.violation('C14.R1', F, c_, fq,
+                              'the marker scanner %r has an alternative of unbounded length: it is matched against the raw text regardless of the comment state, so a `"` inside a '
+                              'comment (-- it\'s "quoted) starts a match that runs over the end of the comment and over the following markers, and the text up to the next `"` is '
+                              'treated as a literal: changing a comment changes the parse' % pat_, stmt='scanner alternative of unbounded length')
         # ---- R2 / R4: classify every <chunks>.append(X)   (also through a bound-method alias)
         appends = [c for c in sem.method_calls(pre, 'append', pv) if c.args]
         verbatim_uppers = set()
